@@ -1,6 +1,7 @@
 import OptunaVerif.Generated.HvMethods
 import OptunaVerif.Generated.HvShapes
 import OptunaVerif.Lemmas.HvExpected
+import OptunaVerif.Lemmas.HsspIR
 set_option linter.unusedSimpArgs false
 namespace OptunaVerif.C15Gen
 open OptunaVerif OptunaVerif.Hypervolume OptunaVerif.HvIR
@@ -195,5 +196,148 @@ example : chvGen prog [[.fin 0, .fin 0], [.fin 1, .fin 1], [.fin 1, .fin 1]] [.f
     chvGen prog [[.ninf, .fin 4]] [.fin 5, .fin 5] false = .out .inf ∧
     chvGen prog [[.fin 0, .fin 2]] [.fin 1, .fin 1] true = .out .error ∧
     chvGen prog [[.fin 0, .fin 0, .fin 0], [.fin 1, .fin 1, .fin 1]] [.fin 2, .fin 2, .fin 2] true = .out (.fin 8) := by decide
+
+
+/-! ## `_solve_hssp` -/
+
+open OptunaVerif.HsspIR in
+/-- **gen_solve_hssp_eq** — `_solve_hssp` as written today, for every array, every `rank_i_indices` of the same length, every `subset_size` and
+every solver for unique rows: all ids when `k = n`; with fewer unique rows than `k` the first occurrence of every unique row plus the first
+`k - n_unique` remaining positions (a boolean mask, so the result is in position order and has no repetition); otherwise the solver's
+selection — always read through `rank_i_indices`. -/
+theorem gen_solve_hssp_eq (solver : List Pt → List Nat → Nat → List Nat) (vals : List Pt) (ids : List Nat) (k : Nat) :
+    topGen Generated.HsspMethods.prog.top solver vals ids k = .idx (solveHsspRef solver vals ids k) := by
+  unfold topGen solveHsspRef
+  simp only [Generated.HsspMethods.prog, Generated.HsspMethods.top, SE.eval, sget_cons, sget]
+  by_cases hk : k = ids.length
+  · simp [hk]
+  · have hk' : (k == ids.length) = false := by simpa using hk
+    simp only [hk, hk', if_false]
+    by_cases hu : (uniqueLex vals).length < k
+    · have hle : (uniqueLex vals).length ≤ k := Nat.le_of_lt hu
+      simp [hu, hle, hk', setAll_replicate, setAll_map, selMask_map_filter, selMask_range]
+      rfl
+    · simp [hu, hk']
+
+open OptunaVerif.HsspIR in
+example : topGen Generated.HsspMethods.prog.top (fun _ _ _ => []) [[1, 1], [1, 1], [4, 4], [2, 1], [4, 4], [1, 1]] [10, 11, 12, 13, 14, 15] 5 =
+    .idx [10, 11, 12, 13, 14] := by decide
+
+
+/-! ## `_solve_hssp_on_unique_loss_vals` (with `_lazy_contribs_update` and `_solve_hssp_2d` as parameters) -/
+
+open OptunaVerif.HsspIR OptunaVerif.Hssp in
+theorem eraseIdx_map' {α β : Type} (f : α → β) (l : List α) (m : Nat) : (l.map f).eraseIdx m = (l.eraseIdx m).map f := by
+  induction l generalizing m with
+  | nil => rfl
+  | cons a t ih => cases m <;> simp [List.eraseIdx, ih]
+
+open OptunaVerif.HsspIR OptunaVerif.Hssp in
+/-- the generated loop on the three parallel arrays `contribs` / `indices` / `rank_i_loss_vals` is the hand model's loop on candidate records:
+first-maximum pick, the picked position dropped from all three arrays, no update after the last pick, the recorded rows handed to the lazy update -/
+theorem gen_greedy_loop_eq (r : Pt) (lab : Nat → Nat) (k : Nat) : ∀ (T : List Trip) (sel : List Pt),
+    (greedyGen Generated.HsspMethods.prog.greedy (fun cs vs s => lazyUpdate r cs vs s) k
+      (T.map (fun t => t.2.2)) (T.map (fun t => t.2.1)) (T.map (fun t => t.1)) sel).map lab =
+    (greedyLazy r k (T.map (toCand lab)) sel).map (fun c => c.label) := by
+  induction k with
+  | zero => intro T sel; rfl
+  | succ k ih =>
+    intro T sel
+    have hflags : Generated.HsspMethods.prog.greedy.pick = .argmaxFirst ∧ Generated.HsspMethods.prog.greedy.dropFromContribs = true ∧
+        Generated.HsspMethods.prog.greedy.dropFromIndices = true ∧ Generated.HsspMethods.prog.greedy.dropFromVals = true ∧
+        Generated.HsspMethods.prog.greedy.recordsIndexOfPick = true ∧ Generated.HsspMethods.prog.greedy.recordsVecOfPick = true ∧
+        Generated.HsspMethods.prog.greedy.breakAtLast = true ∧ Generated.HsspMethods.prog.greedy.lazySliceExtra = 2 := by decide
+    obtain ⟨f1, f2, f3, f4, f5, f6, f7, f8⟩ := hflags
+    have hc : (T.map (toCand lab)).map (fun c => c.contrib) = T.map (fun t => t.2.2) := by simp [toCand]
+    unfold greedyGen greedyLazy
+    simp only [f1, f2, f3, f4, f5, f6, f7, f8, Pick.eval, hc, List.getElem?_map, if_true]
+    cases hm : T[argmax (T.map (fun t => t.2.2))]? with
+    | none => simp
+    | some t =>
+      simp only [Option.map_some]
+      by_cases hk : k = 0
+      · subst hk; simp [toCand]
+      · have hk' : (k == 0) = false := by simpa using hk
+        simp only [hk, hk', Bool.true_and, Bool.false_eq_true, if_false, List.map_cons, eraseIdx_map', toCand]
+        have hlen : (lazyUpdate r ((T.eraseIdx (argmax (T.map (fun t => t.2.2)))).map (fun t => t.2.2))
+            ((T.eraseIdx (argmax (T.map (fun t => t.2.2)))).map (fun t => t.1)) (sel ++ [t.1])).length =
+            (T.eraseIdx (argmax (T.map (fun t => t.2.2)))).length := by rw [lazyUpdate_length]; simp
+        obtain ⟨p1, p2, p3⟩ := repl_proj _ _ hlen
+        have hmapc : ((T.eraseIdx (argmax (T.map (fun t => t.2.2)))).map (toCand lab)).map (fun c => c.contrib) =
+            (T.eraseIdx (argmax (T.map (fun t => t.2.2)))).map (fun t => t.2.2) := by simp [toCand]
+        have hmapp : ((T.eraseIdx (argmax (T.map (fun t => t.2.2)))).map (toCand lab)).map (fun c => c.pt) =
+            (T.eraseIdx (argmax (T.map (fun t => t.2.2)))).map (fun t => t.1) := by simp [toCand]
+        have := ih (repl (T.eraseIdx (argmax (T.map (fun t => t.2.2))))
+          (lazyUpdate r ((T.eraseIdx (argmax (T.map (fun t => t.2.2)))).map (fun t => t.2.2))
+            ((T.eraseIdx (argmax (T.map (fun t => t.2.2)))).map (fun t => t.1)) (sel ++ [t.1]))) (sel ++ [t.1])
+        rw [p1, p2, p3] at this
+        show lab t.2.1 :: _ = _
+        rw [this]
+        simp only [hmapc, hmapp, setContribs_map lab _ _ hlen, toCand]
+
+
+open OptunaVerif.HsspIR OptunaVerif.Hssp in
+theorem zipIdx_cands (r : Pt) (labels : List Nat) (U : List Pt) : ∀ o, o + U.length = labels.length →
+    (U.zipIdx o).map (fun x => toCand (fun j => labels.getD j 0) (x.1, x.2, vol r x.1)) =
+    (U.zip (labels.drop o)).map (fun e => ({ pt := e.1, label := e.2, contrib := vol r e.1 } : Cand)) := by
+  induction U with
+  | nil => intro o _; rfl
+  | cons p U ih =>
+    intro o h
+    have hlt : o < labels.length := by simp only [List.length_cons] at h; omega
+    rw [List.drop_eq_getElem_cons hlt]
+    have := ih (o + 1) (by simp only [List.length_cons] at h; omega)
+    simp only [List.zipIdx_cons, List.map_cons, List.zip_cons_cons, this]
+    simp [toCand, List.getD_eq_getElem?_getD, List.getElem?_eq_getElem hlt]
+
+open OptunaVerif.HsspIR OptunaVerif.Hssp in
+theorem zipIdx_proj (r : Pt) (U : List Pt) : ∀ o,
+    ((U.zipIdx o).map (fun x => ((x.1, x.2, vol r x.1) : Trip))).map (fun t => t.1) = U ∧
+    ((U.zipIdx o).map (fun x => ((x.1, x.2, vol r x.1) : Trip))).map (fun t => t.2.1) = List.range' o U.length ∧
+    ((U.zipIdx o).map (fun x => ((x.1, x.2, vol r x.1) : Trip))).map (fun t => t.2.2) = U.map (vol r) := by
+  induction U with
+  | nil => intro o; simp
+  | cons p U ih =>
+    intro o
+    obtain ⟨h1, h2, h3⟩ := ih (o + 1)
+    simp only [List.map_map] at h1 h2 h3
+    simp [List.zipIdx_cons, List.range'_succ, h1, h2, h3]
+
+open OptunaVerif.HsspIR OptunaVerif.Hssp in
+/-- **gen_solve_on_unique_eq** — `_solve_hssp_on_unique_loss_vals` as written today, with `_lazy_contribs_update` and `_solve_hssp_2d` taken as the
+hand model's `lazyUpdate` / `hssp2dLoop` (PARAMETERS: they have no interpreter yet): the three early returns, the initial contributions
+`prod(ref - row)`, the greedy loop, and the final `rank_i_indices[selected_indices]` are the hand model's `solveOnUnique`, for every
+unique-row array, label array of the same length, `k`, reference point. -/
+theorem gen_solve_on_unique_eq_partial (U : List Pt) (labels : List Nat) (k : Nat) (r : Pt) (fin : Bool) (hlen : labels.length = U.length) :
+    uniqueGen Generated.HsspMethods.prog.greedy (fun cs vs s => lazyUpdate r cs vs s)
+      (fun U labels k => hssp2dLoop k ((U.zip labels).map (fun e => { pt := e.1, label := e.2, dx := x0 r, dy := y1 r }))) U labels k r fin =
+    solveOnUnique U labels k r fin := by
+  unfold uniqueGen solveOnUnique
+  have hf : Generated.HsspMethods.prog.greedy.refNotFiniteReturnsPrefix = true ∧ Generated.HsspMethods.prog.greedy.sizeEqReturnsAll = true ∧
+      Generated.HsspMethods.prog.greedy.dispatch2d = 2 ∧ Generated.HsspMethods.prog.greedy.resultThroughIds = true := by decide
+  obtain ⟨g1, g2, g3, g4⟩ := hf
+  simp only [g1, g2, g3, g4, Bool.true_and, if_true]
+  cases fin
+  · simp
+  · simp only [Bool.not_true, Bool.false_eq_true, if_false]
+    by_cases hk : labels.length = k
+    · simp [hk]
+    · have hk' : (labels.length == k) = false := by simpa using hk
+      simp only [hk, hk', Bool.false_eq_true, if_false]
+      by_cases h2 : r.length = 2
+      · simp [h2]
+      · simp only [h2, if_false]
+        have hcs : vecOf (Generated.HsspMethods.prog.greedy.initContribs.eval [("S", .mat U), ("ref", .vec r)]) = U.map (vol r) := by
+          simp [Generated.HsspMethods.prog, Generated.HsspMethods.greedy, HE.eval, hget_cons, hget, vecOf, prodL_subL]
+        obtain ⟨p1, p2, p3⟩ := zipIdx_proj r U 0
+        have hloop := gen_greedy_loop_eq r (fun j => labels.getD j 0) k
+          ((U.zipIdx 0).map (fun x => ((x.1, x.2, vol r x.1) : Trip))) []
+        rw [p1, p2, p3, ← List.range_eq_range'] at hloop
+        rw [hcs, hloop, List.map_map]
+        have hz := zipIdx_cands r labels U 0 (by simp [hlen])
+        simp only [List.drop_zero] at hz
+        have hcomp : ((toCand fun j => labels.getD j 0) ∘ fun (x : Pt × Nat) => ((x.1, x.2, vol r x.1) : Trip)) =
+            (fun x => toCand (fun j => labels.getD j 0) (x.1, x.2, vol r x.1)) := rfl
+        rw [hcomp, hz]
 
 end OptunaVerif.C15Gen
